@@ -340,7 +340,10 @@ class Script:
                 av["id"] = self.next_id
                 self.next_id += 1
                 lines.append(("R", "NEW %s#%d" % (a[1], av["id"])))
-                exprs.append("Box::new(crate::%s::%s::vf_new(%d))" % ([m.name for m in self.prog.modules if self.prog.find(a[1]) in m.items][0], a[1], av["tmp"]))
+                # created by a statement of its own, in argument order, like the lent temporaries next to it (ids follow creation order)
+                nm = "vf_b%s_%d" % (tag, i)
+                pre.append("let %s = Box::new(crate::%s::%s::vf_new(%d));" % (nm, [m.name for m in self.prog.modules if self.prog.find(a[1]) in m.items][0], a[1], av["tmp"]))
+                exprs.append(nm)
                 self.cb_during.append(("R", "DROP %s#%d" % (a[1], av["id"])))
                 continue
             if a[0] == "oref" and isinstance(av, dict):
